@@ -142,7 +142,7 @@ theorem validType_of_validate (m : Metadata) : (dt : DataType) → rangeType dt 
   | .map (.mk _ (.struct (.cons kf (.cons vf .nil))) _ me) sorted, hr, he, h => by
     simp only [validateDataType] at h
     simp only [rangeType, rangeField, rangeFields, Bool.and_eq_true] at hr
-    simp only [entriesType, entriesField, entriesFields, Bool.and_eq_true, Field.metadata, structStrat] at he
+    simp only [entriesType, entriesField, entriesFields, Bool.and_eq_true, entryStrat, structStrat] at he
     obtain ⟨h1, h2⟩ := bind_unit_ok h
     obtain ⟨h3, h4⟩ := bind_unit_ok h2
     have hk := validField_of_validate kf hr.1 he.2.1 h3
@@ -248,10 +248,10 @@ theorem sideType_of_valid (m : Metadata) : (dt : DataType) → validType m dt = 
   | .map (.mk en edt enl em) sorted, h => by
     simp only [validType, Bool.and_eq_true] at h
     have := side_of_valid (.mk en edt enl em) h.2
-    simp only [rangeType, entriesType, Bool.and_eq_true, this, Field.metadata, structStrat]
+    simp only [rangeType, entriesType, Bool.and_eq_true, this]
     refine ⟨trivial, ?_, trivial⟩
     have h2 := h.2
-    cases edt <;> first | (simp [isStruct2] at h; done) | skip
+    cases edt <;> first | rfl | skip
     simp only [validField, validType, Bool.and_eq_true] at h2
     exact h2.1
   | .union us mode, h => by
